@@ -439,6 +439,7 @@ type concArgs struct {
 	dumpep   bool
 	firstuse int
 	eidx, en int
+	grantlog string
 }
 
 func loadRefs(path string, n int) []Ref {
@@ -676,6 +677,13 @@ func runEpisode(ep *Episode, pool []*Op, refs []Ref, st *ConcStats, a *concArgs)
 			}
 		}
 		grants = append(grants, g)
+		if grantLog != nil {
+			gc := 0
+			if g.G {
+				gc = 1
+			}
+			fmt.Fprintf(grantLog, "%d %d %d\n", g.C, g.S, gc)
+		}
 		who, kind := zzsimrt.Grant(g.C, g.S)
 		if who != g.C {
 			infra("baton: granted client %d, client %d answered", g.C, who)
@@ -816,6 +824,24 @@ func runEpisode(ep *Episode, pool []*Op, refs []Ref, st *ConcStats, a *concArgs)
 			}
 		}
 	}
+	// What a call returned belongs to its caller. Overwrite every returned
+	// byte slice now: if the library kept a reference (a memo or a pool that
+	// shares storage with a result), a later episode's call returns garbage.
+	for c := 0; c < top; c++ {
+		for _, o := range cl[c].outs {
+			if o.AliasesInput {
+				continue
+			}
+			for _, b := range [][]byte{o.b, o.b2} {
+				for i := range b {
+					b[i] ^= 0xa5
+				}
+			}
+			for i := range o.valid {
+				o.valid[i] = !o.valid[i]
+			}
+		}
+	}
 	ep.Grants = grants
 	return viol
 }
@@ -835,8 +861,17 @@ func emitEpisodeViolation(v *ViolationRec, ep *Episode, pool []*Op, a *concArgs)
 	}{v, &ep2})
 }
 
+var grantLog *os.File
+
 func concMain(a concArgs) int {
 	installHooks()
+	if a.grantlog != "" {
+		f, err := os.OpenFile(a.grantlog, os.O_CREATE|os.O_WRONLY|os.O_TRUNC, 0o644)
+		if err != nil {
+			infra("grantlog: %v", err)
+		}
+		grantLog = f
+	}
 	debug.SetGCPercent(int(20 + derive(a.seed, lbl("gogc"), uint64(a.worker))%380))
 	start := time.Now()
 	st := &ConcStats{T: "stats", Config: a.config, Worker: a.worker, Seed: a.seed, Families: map[string]int{}, Overlap: map[string]int{},
